@@ -10,18 +10,49 @@ BASELINE_OFF = ("cd /repo && env -u DEPCCG_VERIF /venv/bin/python -m pytest -ra 
 ALL = ['C%02d' % i for i in range(1, 21)]
 
 # pid -> (technique, level text, level note, design ref)
+T_PROOF = ('Lean 4 theorems (kernel-checked, no sorry, axioms audited) over a hand-written executable model + '
+           'differential correspondence model vs real code on generated inputs + independent oracle on the real code')
+NOTE = ('Trusted: Lean 4.33 kernel; axioms propext/Classical.choice/Quot.sound only; the statements in lean/Depccg/Props; '
+        'the hand-written model is tied to the code by differential testing on every run (not by proof); ')
+
 CLAIMED = {
-    'C13': (
-        'Lean 4 theorems over a hand-written model of cat.py + differential correspondence (driver vs real objects) + value-law oracle',
-        'Machine-checked proof (Lean 4 kernel) that in the model of depccg/cat.py equality is structural, the hashed key is '
-        'coherent with and determined by the value, string comparison holds exactly for the canonical text, feature-blind '
-        'comparison is an equivalence strictly coarser than equality, and clear_features removes exactly the named features '
-        '(idempotent, nothing else changes) - for all categories of any size. The model is tied to the code on every run by '
-        'running model and implementation on the same >200k operations and diffing the answers; an independent oracle states '
-        'the laws directly on the real objects (incl. real hash()/dict/set).',
-        'Trusted: Lean kernel; axioms propext/Classical.choice/Quot.sound only; the hand-written model is tied to cat.py by '
-        'differential testing (not by proof); CPython hash()/dict semantics are observed, not modelled.',
-        'DESIGN.md §4 C13'),
+    'C05': (T_PROOF,
+            'Proved for all category values / all well-formed texts (no size bound): parse(print c) = c for every well-formed '
+            'value; every well-formed text of a value (arbitrary redundant round/angle brackets, blanks between tokens) reads '
+            'to that value, and the printed text is such a text; text with two unbracketed slashes at one level is rejected '
+            '(RuntimeError at top level, AssertionError inside brackets). Model (tokenizer, shift-reduce loop, printer) is '
+            'diffed against Category.parse/str on ~45k texts per run incl. every shipped category string and a malformed '
+            'stream; an independent recursive-descent reader is the oracle.',
+            NOTE + 'inputs on which the real reader builds ill-typed objects are outside the model (reported as Unsupported, not compared).',
+            'DESIGN.md §4 C05'),
+    'C06': (T_PROOF,
+            'Proved: for linear patterns with single-letter variables (all 13 grammar pattern pairs, checked by decide) and '
+            'inputs of one feature system, matching succeeds iff shape, shared-variable feature-blind identity and positionwise '
+            'feature compatibility hold (stated declaratively, both directions); bindings are the last matched sub-category '
+            'with at most its variable features replaced by input features; unknown variable = KeyError; no binding before a '
+            'call or after a failure; a matcher answers once. Model diffed against the real Unification on ~90k cases per run '
+            '(pattern-instantiated and perturbed pairs, random linear patterns, mixed-system malformed stream); a declarative '
+            'matcher written from the statement is the oracle.',
+            NOTE + 'CPython dict order is modelled as insertion order.',
+            'DESIGN.md §4 C06'),
+    'C13': (T_PROOF,
+            'Proved for all categories of any size: equality is structural, the hashed key is coherent with and determined by '
+            'the value, string comparison holds exactly for the canonical text, feature-blind comparison is an equivalence '
+            'strictly coarser than equality, clear_features removes exactly the named features (idempotent, nothing else '
+            'changes). Model diffed against the real objects on >200k operations per run; an independent oracle states the '
+            'laws directly on the real objects (incl. real hash()/dict/set).',
+            NOTE + 'CPython hash()/dict semantics are observed, not modelled.',
+            'DESIGN.md §4 C13'),
+    'C14': (T_PROOF,
+            'Proved: seen-rule gate (en: key with X/nb erased; ja: raw pair) gives exactly the unrestricted result or []; '
+            'English results do not depend on nb; unary rules return exactly the configured targets in order; totality of the '
+            'English/Japanese binary rules on their own feature system; success of matching is independent of the visiting '
+            'order of shared variables, bindings too unless one variable is bound twice to different values (witness proved: '
+            'the hash-seed dependence repaired by a fix: commit). Purity is what being a Lean function means; the real code is '
+            'checked for it by snapshots, double evaluation, a Pool worker and fresh interpreters under several '
+            'PYTHONHASHSEED values on every run.',
+            NOTE + 'interpreter hashing / process behaviour is observed by the cross-process correspondence only.',
+            'DESIGN.md §4 C14'),
 }
 
 REASON_PENDING = 'check not yet built in this session (model/theorems planned in DESIGN.md §4); not claimed until it runs'
